@@ -352,7 +352,8 @@ class ContractionProcessor:
                     ix = self.indmap[ind] = c
                     self.edges[ix] = {i: None}
                     self.appearances.append(1)
-                    self.sizes.append(size_dict[ind])
+                    # n.b. python ints, e.g. numpy integers would overflow
+                    self.sizes.append(int(size_dict[ind]))
                     c += 1
                 else:
                     # seen index already
